@@ -4,7 +4,7 @@ import json
 from lib.verif import *
 
 THEOREMS = [
-    "C11_handshake_agrees", "C11_handshake_rejects", "C11_stream_roundtrip",
+    "C11_handshake_agrees", "C11_handshake_rejects_partial", "C11_stream_roundtrip",
     "C11_nonce_unique", "C11_tamper_rejected",
 ]
 MODULE = "LV.Noise.Props"
@@ -276,7 +276,7 @@ def predicate_all(ctx, rows, stats, limit=3):
     nfail = 0
     for ci, c in enumerate(rows):
         if c["kind"] == "hs":
-            f, th = pred_hs(c), ("C11_handshake_rejects" if c["completed"] else "C11_handshake_agrees")
+            f, th = pred_hs(c), ("C11_handshake_rejects_partial" if c["completed"] else "C11_handshake_agrees")
         elif c["kind"] == "tr":
             f, th = pred_tr(c, stats), "C11_stream_roundtrip"
             if f and ("tamper" in f[0] or "position" in f[0] or "twice" in f[0]):
